@@ -1,20 +1,27 @@
 package checks
 
 import (
+	"bufio"
 	"bytes"
 	"context"
+	"encoding/binary"
 	"fmt"
+	"io"
 	"math/rand/v2"
 	"strings"
+	"sync/atomic"
 	"testing"
 	"time"
 
 	goheaderp2p "github.com/celestiaorg/go-header/p2p"
+	p2ppb "github.com/celestiaorg/go-header/p2p/pb"
 	goheaderstore "github.com/celestiaorg/go-header/store"
 	ds "github.com/ipfs/go-datastore"
 	ktds "github.com/ipfs/go-datastore/keytransform"
 	pubsub "github.com/libp2p/go-libp2p-pubsub"
+	"github.com/libp2p/go-libp2p/core/network"
 	"github.com/libp2p/go-libp2p/core/peer"
+	"github.com/libp2p/go-libp2p/core/protocol"
 	mocknet "github.com/libp2p/go-libp2p/p2p/net/mock"
 	"github.com/multiformats/go-multiaddr"
 
@@ -107,6 +114,51 @@ func c03WholeBody(t *testing.T, s *sim.Scn, o *sim.Outcome) {
 	aps, err := pubsub.NewGossipSub(ctx, ahost)
 	if err != nil {
 		panic(err)
+	}
+	var lies atomic.Int64
+	defer func() { o.Count("lying-exchange-answers", int(lies.Load())) }()
+	if liar := s.Cfg["liar"]; liar > 0 {
+		// a lying exchange server: the adversarial peer answers every request of go-header's header exchange
+		// protocol (the first header a node with an empty store asks for, head requests, range requests) with a
+		// header that is valid in itself - its own key, its own address as proposer, right chain id - at the
+		// requested height (liar=1), the next one (2) or far above (3). The victims list it among their configured
+		// peers (a malicious bootstrap peer), so they do ask it.
+		lsg, _ := sim.SignerFromSeed("attacker")
+		delta := []uint64{0, 0, 1, 40}[liar%4]
+		ahost.SetStreamHandler(protocol.ID("/"+rw.w.Genesis.ChainID+"-headerSync/header-ex/v0.0.3"), func(st network.Stream) {
+			rd := bufio.NewReader(st)
+			size, err := binary.ReadUvarint(rd)
+			if err != nil || size > 1<<20 {
+				_ = st.Reset()
+				return
+			}
+			buf := make([]byte, size)
+			req := new(p2ppb.HeaderRequest)
+			if _, err := io.ReadFull(rd, buf); err != nil || req.Unmarshal(buf) != nil {
+				_ = st.Reset()
+				return
+			}
+			h := req.GetOrigin()
+			if h == 0 {
+				h = 7 // a head request
+			}
+			forged, err := types.GetRandomSignedHeaderCustom(&types.HeaderConfig{Height: h + delta, DataHash: (&types.Data{}).DACommitment(), AppHash: bytes.Repeat([]byte{0x5a}, 32), Signer: lsg}, rw.w.Genesis.ChainID)
+			if err != nil {
+				_ = st.Reset()
+				return
+			}
+			body, _ := forged.MarshalBinary()
+			resp, _ := (&p2ppb.HeaderResponse{Body: body, StatusCode: p2ppb.StatusCode_OK}).Marshal()
+			_, _ = st.Write(append(binary.AppendUvarint(nil, uint64(len(resp))), resp...))
+			_ = st.Close()
+			lies.Add(1)
+		})
+		for _, v := range []*rnode{full, light} {
+			if v.extraPeers != "" {
+				v.extraPeers += ","
+			}
+			v.extraPeers += fmt.Sprintf("%s/p2p/%s", aaddr, ahost.ID())
+		}
 	}
 	hTopicID, dTopicID := c03TopicIDs(rw.w.Genesis.ChainID)
 	hTopic, err := aps.Join(hTopicID)
@@ -374,7 +426,7 @@ func c03WholeBody(t *testing.T, s *sim.Scn, o *sim.Outcome) {
 }
 
 func c03WholeGen(r *rand.Rand, tier string) *sim.Scn {
-	s := &sim.Scn{Cfg: map[string]int64{"whole": 1, "bt": []int64{300, 500, 1000}[r.IntN(3)], "dat": []int64{1000, 2000}[r.IntN(2)], "linkms": r.Int64N(40), "evil": []int64{0, 0, 1, 2}[r.IntN(4)], "jitter": []int64{0, 0, 0, 400, 4000}[r.IntN(5)], "jsalt": r.Int64N(1 << 30)}}
+	s := &sim.Scn{Cfg: map[string]int64{"whole": 1, "bt": []int64{300, 500, 1000}[r.IntN(3)], "dat": []int64{1000, 2000}[r.IntN(2)], "linkms": r.Int64N(40), "evil": []int64{0, 0, 1, 2}[r.IntN(4)], "liar": []int64{0, 0, 1, 2, 3}[r.IntN(5)], "jitter": []int64{0, 0, 0, 400, 4000}[r.IntN(5)], "jsalt": r.Int64N(1 << 30)}}
 	n := 6 + r.IntN(14)
 	for i := 0; i < n; i++ {
 		switch x := r.IntN(100); {
